@@ -45,6 +45,7 @@ PROPS["C11"] = dict(l1_ops=l1.UNARY_T + l1.UNARY_G + l1.BINARY_GG + l1.BINARY_GT
 PROPS["C07"] = dict(l1_ops=["hat", "vee", "generator", "innerWeights", "bracket", "inner", "sqwnorm", "wnorm"],
                     l2="C07", n_l1=(400, 6000), n_l2=(80, 2000))
 
+PROPS["C12"] = dict(l1_ops=[], custom="c12", n_l1=(0, 0), n_l2=(0, 0))
 PROPS["C19"] = dict(l1_ops=l1.ALIASES, custom="c19", l1_masks=True, n_l1=(600, 8000), n_l2=(0, 0))
 
 LEVEL = collections.defaultdict(lambda: "proof")
@@ -360,7 +361,45 @@ def custom_c19(builds, r, thorough, res):
     return bad, viol, n + m["cells"]
 
 
-CUSTOM = {"c19": custom_c19, "c08": custom_c08, "c09": _purity("c09"), "c10": _purity("c10")}
+def custom_c12(builds, r, thorough, res):
+    """dual-number and single-precision instantiations (see jets.py), plus the Float32 model"""
+    import jets
+    viol, bad, n = [], [], 0
+    ok, exj = vlib.harness_build(True, kind="jet")
+    if not ok:
+        viol.append(dict(property="C12", group="*<Jet>", op="instantiation", output="compile", tags=["jet"],
+                         request="g++ … -I harness/shim harness/j_*.cpp", err=float("inf"), tol=0.0,
+                         what="manif no longer instantiates over the forward-mode dual scalar: " + exj[-1500:]))
+        return bad, viol, 0
+    cells = set()
+    k = 10 if thorough else 1
+    v, c, worst = jets.run_jets(builds[True], exj, jets.JGROUPS, r, 12 * k, cells)
+    viol += v
+    n += c
+    res.notes["dual_vs_jacobian_worst_rel"] = {"%s.%s" % kk: vv for kk, vv in sorted(worst.items(), key=lambda x: -x[1])[:12]}
+    v, c = jets.run_functors(exj, jets.JGROUPS, r, 8 * k, cells)
+    viol += v
+    n += c
+    fb = float_builds("C12", res)
+    if fb:
+        v, c, w = jets.run_float_vs_double(builds[False], fb[True], [g for g in ALL_GROUPS] + ["B:SE2,SO3,R2"], r, 10 * k, cells)
+        viol += v
+        n += c
+        res.notes["float_vs_double_worst_rel"] = {"%s.%s.%s" % kk: vv for kk, vv in sorted(w.items(), key=lambda x: -x[1])[:12]}
+        with gen.float32():
+            reqs = []
+            for g in MODELLED + ["B:SE2,SO3,R2", "B:R1,SE3,SO2,SE_2_3,SE2"]:
+                reqs += l1.requests_for(r, g, 6 * k, True, storages=("o", "m", "c"))
+                if g in ("SO2", "SE2", "SO3", "SE3"):
+                    reqs += l1.ctor_requests(r, g, 10 * k, True)
+        bad += l1_float(res, reqs, fb[True])
+        n += len(reqs)
+    res.add_cells(list(cells))
+    res.cov["samples"].append(dict(kind="jet", request="1 o SE3 jet_compose 3 <X Y>", answer="value | J_a J_b (primal parts) | AD_a AD_b (dual parts of f(X(+)d)(-)f(X)) | max |dual| of the constant run"))
+    return bad, viol, n
+
+
+CUSTOM = {"c12": custom_c12, "c19": custom_c19, "c08": custom_c08, "c09": _purity("c09"), "c10": _purity("c10")}
 
 
 def proof_cov(po):
